@@ -248,3 +248,78 @@ func init() {
 		return 0
 	}
 }
+
+// poolbig: release whole parsed trees (wide / deep shapes that exercise the work-queue limits of the
+// release paths), then drain the pools: every object the pools hand out afterwards must be fresh.
+type poolBigResult struct {
+	Trees   int      `json:"trees"`
+	Nodes   int      `json:"nodes_released"`
+	Gets    int      `json:"gets"`
+	Reused  int      `json:"gets_reused"`
+	Dirty   []string `json:"dirty"`
+	Samples []string `json:"samples"`
+}
+
+func runPoolBig(sqls []string) poolBigResult {
+	old := runtime.GOMAXPROCS(1)
+	defer runtime.GOMAXPROCS(old)
+	res := poolBigResult{}
+	for _, sql := range sqls {
+		drainPools()
+		tr, err := gosqlx.Parse(sql)
+		if err != nil || tr == nil {
+			continue
+		}
+		rs := reachable(tr)
+		counts := map[string]int{}
+		was := map[interface{}]bool{}
+		for _, r := range rs {
+			if r.Kind == "ptr" {
+				counts[r.Type]++
+				was[r.Ptr] = true
+			}
+		}
+		res.Trees++
+		res.Nodes += len(rs)
+		ast.ReleaseAST(tr)
+		for _, pr := range poolRegs {
+			n := counts[pr.Name] + 2
+			if n > 5000 {
+				n = 5000
+			}
+			for i := 0; i < n; i++ {
+				obj := pr.Get()
+				res.Gets++
+				if was[obj] {
+					res.Reused++
+				}
+				for f, st := range statusOf(reflect.ValueOf(obj).Elem()) {
+					if st != "zero" && st != "len0_clean" {
+						short := sql
+						if len(short) > 120 {
+							short = short[:120] + "..."
+						}
+						if len(res.Dirty) < 20 {
+							res.Dirty = append(res.Dirty, fmt.Sprintf("%s.%s %s after ReleaseAST of %q (Get #%d)", pr.Name, f, st, short, i))
+						}
+					}
+				}
+			}
+		}
+		if len(res.Samples) < 3 {
+			short := sql
+			if len(short) > 100 {
+				short = short[:100] + "..."
+			}
+			res.Samples = append(res.Samples, fmt.Sprintf("%q: %d nodes", short, len(rs)))
+		}
+	}
+	return res
+}
+
+func init() {
+	subcmds["poolbig"] = func(args []string) int {
+		emitJSON(runPoolBig(readSQLLines()))
+		return 0
+	}
+}
